@@ -122,6 +122,94 @@ def function_grid():
             yield ("doc", "fgrid2:%s(%s;%s)" % (bn, an1, an2)), [("let", "f", ("func", ["p"], body)), ("let", "r1", ("call", SYM("f"), [a1])), ("let", "r2", ("call", SYM("f"), [a2]))]
 
 
+def producer_consumer_grid():
+    """Every way of producing a value whose static shape is indirect (a select's default or arm, a
+    reduce whose callback changes the accumulator's type, a call, a selection out of a filtered /
+    mapped / copied container, a select inside a select) x every construct that consumes a value.
+    The evaluation decides which combinations are valid programs. Added after the thorough tier
+    found the checker typing a select without its default and a reduce as its initial accumulator."""
+    one = I(1)
+    X = SYM("x")
+    idf = ("func", ["x"], X)
+    values = [("int", one, ("float", 0.5)), ("str", S("s"), one), ("bool", TRUE, one), ("list", L(one, I(2)), one), ("tuple", T(("a", one)), one),
+              ("strlist", L(S("a")), S("s"))]
+    def producers(v, other):
+        yield "literal", v
+        yield "select-default", ("select", S("z"), v, [("a", other)])
+        yield "select-arm", ("select", S("a"), other, [("a", v)])
+        yield "select-arm-no-default", ("select", S("a"), None, [("a", v), ("b", other)])
+        yield "reduce-changing", ("reduce", ("func", ["acc", "x"], v), other, L(one))
+        yield "reduce-empty", ("reduce", ("func", ["acc", "x"], other), v, L())
+        yield "call", ("call", SYM("ident"), [v])
+        yield "tuple-field", B(".", T(("f", v)), SYM("f"))
+        yield "list-element", B(".", L(v), I(0))
+        yield "nested-select", ("select", S("a"), None, [("a", ("select", S("z"), v, [("b", other)]))])
+        yield "filtered-tuple-field", B(".", ("filter", ("func", ["k", "v"], TRUE), T(("f", v))), SYM("f"))
+        yield "mapped-list-element", B(".", ("map", idf, L(v)), I(0))
+        yield "copied-field", B(".", ("copy", SYM("base"), [("f", v)]), SYM("f"))
+    def consumers(e):
+        yield ".a", B(".", e, SYM("a"))
+        yield ".0", B(".", e, I(0))
+        yield "&&true", B("&&", e, TRUE)
+        yield "true&&", B("&&", TRUE, e)
+        yield "false||", B("||", ("bool", False), e)
+        yield "not", ("not", e)
+        yield "+1", B("+", e, one)
+        yield "1+", B("+", one, e)
+        yield "+str", B("+", e, S("t"))
+        yield "+list", B("+", e, L(I(3)))
+        yield "==self", B("==", e, e)
+        yield "map", ("map", idf, e)
+        yield "filter", ("filter", ("func", ["x"], TRUE), e)
+        yield "reduce", ("reduce", ("func", ["acc", "x"], SYM("acc")), I(0), e)
+        yield "call-arg", ("call", SYM("ident"), [e])
+        yield "select-on", ("select", e, I(0), [("s", one), ("true", I(2))])
+        yield "int()", ("cast", "int", e)
+        yield "str()", ("cast", "str", e)
+        yield "range-end", ("range", I(0), None, e)
+        yield "format-arg", ("format", "<@>", [e])
+        yield "in", B("in", one, e)
+        yield "list-of", L(e, e)
+        yield "field-of", B(".", T(("k", e)), SYM("k"))
+        yield "bare", e
+    pre = [("let", "ident", idf), ("let", "base", T(("g", I(0))))]
+    for vn, v, other in values:
+        for pn, pe in producers(v, other):
+            for cn, ce in consumers(pe):
+                yield ("doc", "pc:%s:%s:%s" % (vn, pn, cn)), pre + [("let", "r", ce)]
+            # and bound to a name first
+            for cn, ce in consumers(SYM("v")):
+                yield ("doc", "pcb:%s:%s:%s" % (vn, pn, cn)), pre + [("let", "v", pe), ("let", "r", ce)]
+
+
+def nested_call_grid():
+    """let g = func (Q) => GBODY; let f = func (p) => FBODY; let r = f(ARG); where FBODY calls g and Q
+    is either the same name as f's parameter or a different one. Added after the thorough C17 run
+    showed the checker confusing the two functions' parameters when they share a name."""
+    one = I(1)
+    for q in ("p", "q"):
+        Q = SYM(q)
+        P = SYM("p")
+        gbodies = [("Q", Q), ("Q+1", B("+", Q, one)), ("Q+str", B("+", Q, S("s"))), ("[Q]", L(Q)), ("{x=Q}", T(("x", Q))), ("Q.a", B(".", Q, SYM("a"))),
+                   ("Q.0", B(".", Q, I(0))), ("Q==1", B("==", Q, one)), ("str(Q)", ("cast", "str", Q)), ("select-Q", ("select", S("z"), Q, [("a", one)]))]
+        G = lambda *a: ("call", SYM("g"), list(a))
+        fbodies = [("g(p)", G(P)), ("g(str)+str", B("+", G(S("s")), S("x"))), ("g(1)+1", B("+", G(one), one)), ("g(1)+p", B("+", G(one), P)), ("g(p)+1", B("+", G(P), one)),
+                   ("p+g(1)", B("+", P, G(one))), ("[g(p),p]", L(G(P), P)), ("g(g(p))", G(G(P))), ("g([p])", G(L(P))), ("g({a=p})", G(T(("a", P)))),
+                   ("g(p).x", B(".", G(P), SYM("x"))), ("g(p).0", B(".", G(P), I(0))), ("g(str)&&p", B("&&", B("==", G(S("s")), S("s")), P)),
+                   ("{a=g(1),b=p}", T(("a", G(one)), ("b", P))), ("g(p)+g(1)", B("+", G(P), G(one))), ("g(tuple).a+p", B("+", B(".", G(T(("a", one))), SYM("a")), P))]
+        args = [("int", one), ("str", S("s")), ("bool", TRUE), ("list", L(one, I(2))), ("strlist", L(S("a"))), ("tuple-a", T(("a", one))), ("tuple-x", T(("x", one))), ("null", ("null",))]
+        for gn, gb in gbodies:
+            for fn, fb in fbodies:
+                for an, arg in args:
+                    yield ("doc", "nested:%s:%s:%s(%s)" % (q, gn, fn, an)), [("let", "g", ("func", [q], gb)), ("let", "f", ("func", ["p"], fb)), ("let", "r", ("call", SYM("f"), [arg]))]
+    # two parameters handed on in the other order, under the same and under different names
+    for names in (["a", "b"], ["b", "a"], ["x", "y"]):
+        for body in (B("-", SYM(names[0]), SYM(names[1])), B("+", SYM(names[0]), ("cast", "str", SYM(names[1]))), L(SYM(names[0]), SYM(names[1]))):
+            for a1, a2 in ((one, I(2)), (S("s"), one), (L(one), L(S("t")))):
+                yield ("doc", "nested2:%s" % ",".join(names)), [("let", "g", ("func", names, body)), ("let", "f", ("func", ["b", "a"], ("call", SYM("g"), [SYM("b"), SYM("a")]))),
+                                                              ("let", "r", ("call", SYM("f"), [a1, a2]))]
+
+
 RAW_FORMS = [
     ("include-str-concat", 'let r = "#!" + include str "./c07data.txt";'),
     ("include-str-cast", 'let r = int(include str "./c07data.txt") + 1;'),
@@ -227,6 +315,15 @@ def lit_class(e):
     return k
 
 
+def concatenates_unlike_lists(stmts):
+    it = refsem.Interp(eager=True)
+    try:
+        it.run(stmts)
+    except Exception:
+        return False
+    return it.hetero_concat
+
+
 def construct_class(stmts):
     """The shrunk witness abstracted to its root construct and the classes of its direct
     operands; earlier statements contribute only the kind of value they bind."""
@@ -319,6 +416,10 @@ def run(ctx):
             yield ("doc", d, st)
         for d, st in function_grid():
             yield ("doc", d, st)
+        for d, st in nested_call_grid():
+            yield ("doc", d, st)
+        for d, st in producer_consumer_grid():
+            yield ("doc", d, st)
         for op in c01.OPS:
             for a in range(c01.NLEAVES):
                 for b in range(c01.NLEAVES):
@@ -370,6 +471,10 @@ def run(ctx):
             else:
                 wit = st
             sig = "%s :: %s" % (cat, construct_class(wit))
+            if cat.startswith("checker-rejects") and concatenates_unlike_lists(wit):
+                # one recorded defect (the checker wants the two lists of a + to have one element type) reached
+                # through any construct; labelled by what the minimal witness does, not by the message
+                sig = "checker-rejects: heterogeneous list concatenation :: %s" % construct_class(wit)
             if sig in seen:
                 ctx.violations[sig]["count"] += 1
                 continue
